@@ -548,7 +548,7 @@ fn emit_choice_text_segment(
         if has_inline {
             emit_dynamic_string_parts(&dynamic.parts, out, scope, context)?;
         } else {
-            out.push(json!(format!("^{text}")));
+            push_text_with_glue(text, out);
         }
     }
     for tag in tags {
@@ -556,6 +556,20 @@ fn emit_choice_text_segment(
     }
     out.push(json!("/str"));
     Ok(())
+}
+
+/// `<>` in the text of a choice is glue, not the two characters: emit it as
+/// the glue token (which string evaluation drops) between the text pieces.
+fn push_text_with_glue(text: &str, out: &mut Vec<Value>) {
+    let mut pieces = text.split("<>").peekable();
+    while let Some(piece) = pieces.next() {
+        if !piece.is_empty() {
+            out.push(json!(format!("^{piece}")));
+        }
+        if pieces.peek().is_some() {
+            out.push(json!("<>"));
+        }
+    }
 }
 
 fn emit_choice_text_content(
